@@ -167,7 +167,7 @@ bool modelCall(State &S, const CallBase *CB, const std::string &name, std::vecto
       S.nW--;
       writeCells(S, p, cells, std::min(umin(n), (i128)cells.size()), (i128)cells.size(), CB, "arc4random_buf");
     }
-    S.events.push_back("{\"k\":\"entropy\",\"src\":\"arc4random_buf\",\"lo\":" + i128s(umin(n)) + ",\"hi\":" + i128s(umax(n)) + "}");
+    addEvent(S, "{\"k\":\"entropy\",\"src\":\"arc4random_buf\",\"lo\":" + i128s(umin(n)) + ",\"hi\":" + i128s(umax(n)) + "}");
     finishCall(S, CB, Val::unk()); return true;
   }
   if (name == "strlen") {
@@ -185,8 +185,10 @@ bool modelCall(State &S, const CallBase *CB, const std::string &name, std::vecto
     else if (hi >= 0 && lo != hi) {
       // symbolise the unknown length so that `dst + len` and `size - len` stay related
       Root nr; nr.name = "strlen@" + std::to_string(lineOf(CB)); nr.isUnsigned = true; nr.lo = lo; nr.hi = hi; nr.prov = 0;
-      S.roots.push_back(nr);
-      r.root = (int)S.roots.size() - 1; r.rk = 0;
+      auto sr = S.siteRoots.find(CB);
+      if (sr != S.siteRoots.end()) { S.roots[sr->second] = nr; r.root = sr->second; }
+      else { S.roots.push_back(nr); r.root = (int)S.roots.size() - 1; S.siteRoots[CB] = r.root; }
+      r.rk = 0;
     }
     finishCall(S, CB, r); return true;
   }
@@ -199,17 +201,23 @@ bool modelCall(State &S, const CallBase *CB, const std::string &name, std::vecto
     if (name == "memcmp") { checkAccess(S, a, n, n, false, CB, "memcmp"); checkAccess(S, b, n, n, false, CB, "memcmp"); }
     if (alo != ahi || blo != bhi) { finishCall(S, CB, Val::top(32, P_OTHER)); return true; }
     uint8_t prov = 0;
+    bool maybeEqualSoFar = false;     // some earlier position could not be decided (but could not end both strings)
     for (i128 i = 0; i < n && i < 4096; i++) {
       ByteCell x = readByte(S, S.regions[a.reg], alo + i), y = readByte(S, S.regions[b.reg], blo + i);
       prov |= x.prov | y.prov;
-      if ((x.cs & y.cs).none()) { // definitely different here
+      if ((x.cs & y.cs).none()) { // definitely different here, and the strings cannot both have ended before
         Val r = Val::top(32, prov); r.r = ConstantRange(APInt(32, 1), APInt(32, 0)); r.kb = KnownBits(32);   // non-zero
         finishCall(S, CB, r); return true;
       }
-      if (x.cs.count() == 1 && y.cs.count() == 1) { if (x.cs[0] && name != "memcmp") { finishCall(S, CB, Val::cint(32, 0)); return true; } continue; }
-      finishCall(S, CB, Val::top(32, prov)); return true;   // undecided
+      if (x.cs.count() == 1 && y.cs.count() == 1) {
+        if (x.cs[0] && name != "memcmp") { finishCall(S, CB, maybeEqualSoFar ? Val::top(32, prov) : Val::cint(32, 0)); return true; }
+        continue;
+      }
+      // undecided position: if both strings may end here the comparison may already be over
+      if (name != "memcmp" && x.cs[0] && y.cs[0]) { finishCall(S, CB, Val::top(32, prov)); return true; }
+      maybeEqualSoFar = true;
     }
-    finishCall(S, CB, n < 4096 ? Val::cint(32, 0) : Val::top(32, prov)); return true;
+    finishCall(S, CB, (n < 4096 && !maybeEqualSoFar) ? Val::cint(32, 0) : Val::top(32, prov)); return true;
   }
   if (name == "snprintf") {
     Val dst = arg(0), size = arg(1);
@@ -304,7 +312,7 @@ bool modelCall(State &S, const CallBase *CB, const std::string &name, std::vecto
     Val n = arg(0); tighten(S, n);
     State T = S;   // failure alternative
     T.errnoSet = true; T.errnoVal = Val::cint(32, 12);
-    T.events.push_back("{\"k\":\"allocfail\",\"fn\":\"" + name + "\",\"line\":" + std::to_string(lineOf(CB)) + "}");
+    addEvent(T, "{\"k\":\"allocfail\",\"fn\":\"" + name + "\",\"line\":" + std::to_string(lineOf(CB)) + "}");
     finishCall(T, CB, Val::null());
     forks.push_back(T);
     int r = newRegion(S, name + "@" + std::to_string(lineOf(CB)), RK_HEAP, umin(n), umax(n));
@@ -414,6 +422,12 @@ bool modelCall(State &S, const CallBase *CB, const std::string &name, std::vecto
       if (i >= lim && lim - olo <= 40 && !R.gv) { dhi = std::min((i128)40, (R.isString && R.sizeRoot >= 0) ? S.roots[R.sizeRoot].hi + R.sizeK - 1 - olo : (i128)40); if (dhi < dlo) dhi = dlo; }
       if (messy) { res = Val::top(64, P_SETTING); dlo = 0; dhi = std::max(dhi, (i128)1) + 1; }
       else if (exact && dlo == dhi) { res = Val::capint(APInt(64, ovf ? UINT64_MAX : (uint64_t)val)); res.prov = P_SETTING; if (ovf) { S.errnoSet = true; S.errnoVal = Val::cint(32, 34); } }
+      else if (dlo == dhi && dhi <= 19 && dhi > 0) {
+        // every position is a digit (sets): bounds from the smallest / largest digit of each position
+        unsigned __int128 mn = 0, mx = 0;
+        for (i128 k = 0; k < dhi; k++) { ByteCell c = readByte(S, R, olo + k); int lo_d = 9, hi_d = 0; for (int d = 0; d <= 9; d++) if (c.cs['0' + d]) { lo_d = std::min(lo_d, d); hi_d = std::max(hi_d, d); } mn = mn * 10 + lo_d; mx = mx * 10 + hi_d; }
+        res = Val::range(64, ConstantRange::getNonEmpty(APInt(64, (uint64_t)mn), APInt(64, (uint64_t)mx) + 1), P_SETTING);
+      }
       else if (dhi <= 19) { unsigned __int128 mx = 1; for (i128 k = 0; k < dhi; k++) mx *= 10; res = Val::range(64, ConstantRange::getNonEmpty(APInt(64, 0), APInt(64, (uint64_t)(mx - 1)) + 1), P_SETTING); }
     } else { dlo = 0; dhi = 40; }
     if (ep.k == Val::PTR && ep.reg >= 0) {
@@ -426,7 +440,7 @@ bool modelCall(State &S, const CallBase *CB, const std::string &name, std::vecto
   if (name == "realloc") {
     Val p = arg(0), n = arg(1); tighten(S, n);
     { State T = S; T.errnoSet = true; T.errnoVal = Val::cint(32, 12);
-      T.events.push_back("{\"k\":\"allocfail\",\"fn\":\"realloc\",\"line\":" + std::to_string(lineOf(CB)) + "}");
+      addEvent(T, "{\"k\":\"allocfail\",\"fn\":\"realloc\",\"line\":" + std::to_string(lineOf(CB)) + "}");
       finishCall(T, CB, Val::null()); forks.push_back(T); }
     if (p.k == Val::PTR && p.reg >= 0) { Region &O = S.regions[p.reg]; if (O.kind != RK_HEAP) alarm(S, "FREE", CB, "realloc of non-heap region " + O.name); else if (!O.live) alarm(S, "UAF", CB, "realloc of freed block"); O.live = false; O.d.reset(); }
     int r = newRegion(S, "realloc@" + std::to_string(lineOf(CB)), RK_HEAP, umin(n), umax(n));
@@ -436,19 +450,19 @@ bool modelCall(State &S, const CallBase *CB, const std::string &name, std::vecto
   if (name == "mmap") {
     Val n = arg(1); tighten(S, n);
     { State T = S; T.errnoSet = true; T.errnoVal = Val::cint(32, 12);
-      T.events.push_back("{\"k\":\"allocfail\",\"fn\":\"mmap\",\"line\":" + std::to_string(lineOf(CB)) + "}");
+      addEvent(T, "{\"k\":\"allocfail\",\"fn\":\"mmap\",\"line\":" + std::to_string(lineOf(CB)) + "}");
       finishCall(T, CB, Val::ptr(MapFailedRegion, 0)); forks.push_back(T); }
     int r = newRegion(S, "mmap@" + std::to_string(lineOf(CB)), RK_HEAP, umin(n), umax(n));
     S.regions[r].w().rest = constCell(0);
-    S.events.push_back("{\"k\":\"map\",\"region\":" + std::to_string(r) + "}");
+    addEvent(S, "{\"k\":\"map\",\"region\":" + std::to_string(r) + "}");
     finishCall(S, CB, Val::ptr(r, 0)); return true;
   }
   if (name == "munmap") {
     Val p = arg(0);
     { State T = S; T.errnoSet = true; T.errnoVal = Val::cint(32, 22);
-      T.events.push_back("{\"k\":\"allocfail\",\"fn\":\"munmap\",\"line\":" + std::to_string(lineOf(CB)) + "}");
+      addEvent(T, "{\"k\":\"allocfail\",\"fn\":\"munmap\",\"line\":" + std::to_string(lineOf(CB)) + "}");
       finishCall(T, CB, Val::capint(APInt(32, (uint64_t)-1, true))); forks.push_back(T); }
-    if (p.k == Val::PTR && p.reg >= 0) { Region &O = S.regions[p.reg]; if (!O.live) alarm(S, "FREE", CB, "munmap of a dead mapping"); O.live = false; O.d.reset(); S.events.push_back("{\"k\":\"unmap\",\"region\":" + std::to_string(p.reg) + "}"); }
+    if (p.k == Val::PTR && p.reg >= 0) { Region &O = S.regions[p.reg]; if (!O.live) alarm(S, "FREE", CB, "munmap of a dead mapping"); O.live = false; O.d.reset(); addEvent(S, "{\"k\":\"unmap\",\"region\":" + std::to_string(p.reg) + "}"); }
     finishCall(S, CB, Val::cint(32, 0)); return true;
   }
   auto it = CFG.contracts.find(name);
@@ -646,12 +660,15 @@ static bool enterBlockW(State &S, BasicBlock *to) {
     if (lb != LoopBlocks.end() && !lb->second.count(from)) {
       for (auto *b : lb->second) { F0.visits.erase(b); F0.forks.erase(b); F0.snaps.erase(b); }
       F0.loopEntry[to] = S.steps;
+      F0.loopEntryForks[to] = S.nforks;
     } }
   bool hot = F0.forks[to] > CFG.widenAfter || F0.forks[from] > CFG.widenAfter;
+  if (getenv("XAI_TRACE_VIS") && F0.visits[to] % 500 == 499) errs() << "[vis] " << to->getParent()->getName() << ":" << to->getName() << " visits=" << F0.visits[to] << " isheader=" << LoopBlocks.count(to) << " longLoop=" << CFG.longLoop << "\n";
   if (!hot && F0.visits[to] > 0) {
     if (auto *ex = loopExiting(to)) for (auto *b : *ex) if (F0.forks[b] > CFG.widenAfter) { hot = true; break; }
   }
   if (!hot && F0.visits[to] > 4 && LoopBlocks.count(to) && S.steps - F0.loopEntry[to] > CFG.longLoopSteps) hot = true;   // expensive loop body: summarise early
+  if (!hot && F0.visits[to] > CFG.forkyLoop && LoopBlocks.count(to) && (S.nforks - F0.loopEntryForks[to]) * 2 > F0.visits[to]) hot = true;   // body forks on data every iteration
   if (!hot && F0.visits[to] > CFG.longLoop) hot = true;      // very long (even if decided) loops are summarised by widening
   if (!hot && CFG.frameForkWiden > 0 && F0.visits[to] > 0) {
     // a loop header in a frame that has already forked many times on data (not on the loop test):
@@ -659,6 +676,9 @@ static bool enterBlockW(State &S, BasicBlock *to) {
     int tot = 0; for (auto &kv : F0.forks) tot += kv.second;
     if (tot > CFG.frameForkWiden) hot = true;
   }
+  // the snapshot/widening logic is only meaningful at loop headers (their phis carry the loop state);
+  // other blocks are handled by the full-state de-duplication
+  if (hot && !LoopBlocks.count(to)) hot = false;
   if (hot && getenv("XAI_TRACE_HOT")) errs() << "[hot] " << to->getParent()->getName() << ":" << to->getName() << " from " << from->getName() << " forks[to]=" << F0.forks[to] << " forks[from]=" << F0.forks[from] << " visits=" << F0.visits[to] << "\n";
   enterBlock(S, to);
   if (!hot) {
@@ -952,7 +972,8 @@ struct Engine {
         int t = (c.k == Val::INT && c.isConst()) ? (c.constVal().isZero() ? 0 : 1) : -1;
         if (t < 0) {
           S.stack.back().forks[I->getParent()]++;
-          S.fresh = 64;
+          S.fresh = 4096;
+          S.nforks++;
           State T = S;
           { State X; if (splitHole(S, br->getCondition(), true, X)) { work.push_back(std::move(X)); }
             State Y; if (splitHole(T, br->getCondition(), false, Y)) { work.push_back(std::move(Y)); } }
@@ -1053,6 +1074,14 @@ struct Engine {
     if (idx.isConst()) { if (p.root >= 0) { r.root = p.root; r.rk = p.rk + (i128)idx.constVal().getSExtValue() * (i128)scale; } }
     else if (idx.root >= 0 && scale == 1 && p.r.isSingleElement()) { r.root = idx.root; r.rk = idx.rk + p.r.getSingleElement()->getSExtValue(); }
     r.prov |= idx.prov;
+    r.hascs = false;
+    if (p.r.isSingleElement() && p.r.getSingleElement()->isZero() && scale == 1 && idx.k == Val::INT && idx.hascs) { r.hascs = true; r.cs = idx.cs; }
+    // pointers into the untracked remainder of a caller string are all alike (every byte there is the summary cell and
+    // strings carry no read obligations): canonicalise so that string-walking loops reach a fixpoint at once
+    if (r.reg >= 0 && S.regions[r.reg].isString && !r.r.isFullSet() && !r.r.isEmptySet() && !r.r.isSignWrappedSet()) {
+      int64_t tracked = (int64_t)S.regions[r.reg].rd().bytes.size();
+      if (r.r.getSignedMin().getSExtValue() >= tracked) { r.r = ConstantRange::getNonEmpty(APInt(64, (uint64_t)tracked), APInt(64, 1ULL << 62)); r.root = -1; }
+    }
     // known bits of the offset (table index masks such as (x | 1) & 0x3f)
     r.kb = KnownBits(64);
     if (p.r.isSingleElement() && scale == 1 && idx.k == Val::INT && !idx.kb.hasConflict()) {
